@@ -720,6 +720,14 @@ Proof. differ. Qed.
 Example zero_struct_isempty_refuted :
   differs true "$.IsEmpty()" (VStruct [fld "A" (F 0)]) (M [(K "a", F 0)]) (Ok (JBool true)) (Ok (JBool false)).
 Proof. differ. Qed.
+(** with an interface-typed field holding a zero the struct is NOT the zero
+    value (reflect.IsZero and cmp.Equal agree): it is supported and answers like the map *)
+Example iface_zero_struct_agrees :
+  supported true true (VStruct [(bs "A", true, true, F 0)]) /\
+  absx true (VStruct [(bs "A", true, true, F 0)]) = absx true (M [(K "a", F 0)]) /\
+  map (fun q => oabs true (run q (VStruct [(bs "A", true, true, F 0)]))) ["$.Any()"; "$.IsEmpty()"]%string
+  = map (fun q => oabs true (run q (M [(K "a", F 0)]))) ["$.Any()"; "$.IsEmpty()"]%string.
+Proof. split; [left; sup_go|]. split; vm_compute; reflexivity. Qed.
 Example struct_sum_refuted :
   differs true "$.Sum()" (VStruct [fld "A" (F 1)]) (M [(K "a", F 1)]) (Ok n0) (Ok n1).
 Proof. differ. Qed.
